@@ -110,7 +110,10 @@ class CodemodRegistry:
                 pattern_matches = [
                     code for code in self.codemods if pat.fullmatch(code.id)
                 ]
-                matched_codemods.extend(pattern_matches)
+                # each codemod runs at most once, at its first mention
+                matched_codemods.extend(
+                    code for code in pattern_matches if code not in matched_codemods
+                )
                 if not pattern_matches:
                     logger.warning(
                         "Given codemod pattern '%s' does not match any codemods.", name
@@ -118,7 +121,8 @@ class CodemodRegistry:
                 continue
 
             try:
-                matched_codemods.append(self._codemods_by_id[name])
+                if (codemod := self._codemods_by_id[name]) not in matched_codemods:
+                    matched_codemods.append(codemod)
             except KeyError:
                 logger.warning(f"Requested codemod to include '{name}' does not exist.")
         return matched_codemods
